@@ -99,6 +99,14 @@ CHECKS["C06"] = dict(
     design_ref="5/C06",
 )
 
+CHECKS["C01"] = dict(
+    category="proof",
+    text="The real XML writer (every *XMLNode builder reached from XMLFileWriter.write_to_file) and the real XML reader (every *Factory reached from XMLFileReader.open) are executed symbolically back to back through the public CommonRoadFileWriter / CommonRoadFileReader on abstract XML trees: a lanelet network (lanelets with relations, adjacency, markings, types, users, stop line with references, traffic sign, traffic light with cycle, intersection), a static obstacle, dynamic obstacles with trajectory and with set-based prediction incl. signal states, phantom and environment obstacles, a planning problem with region / interval goal states, and the scenario meta data, all with symbolic coordinates and values, for decimal precisions 1, 4, 12 (thorough: 1..12). Postcondition: the read objects reproduce the written ones - ids, enums, flags, time steps, populated attributes identical, every real within 10^-d (unset initial-state attributes read back as 0) - discharged by z3 for all values. Known finding: the virtual flag of traffic signs.",
+    note="float_to_str enters through its contract (plain decimal text, monotone, within 10^-d, truncating outside exponent notation) - checked on real floats only by the bounded layer; XML serialise/parse is the identity on (tag, attributes, text, children) trees; str(float) denotes exactly the float; object collections have small fixed sizes; one representative value per enumeration in the symbolic run; orientation intervals shorter than 2pi-0.25; information the format does not store (first occurrences, colour list, centre line, lanelet assignment) is excluded",
+    technique="deductive: AST symbolic execution of real writer and reader source on abstract XML trees, round-trip postcondition discharged by z3; float_to_str by contract",
+    design_ref="5/C01",
+)
+
 NOT_YET = {}
 
 def main():
